@@ -326,7 +326,7 @@ fn case_s() -> BoxedStrategy<Case> {
         prop_oneof![3 => Just(Pol::Lru), 2 => Just(Pol::Lfu), 2 => Just(Pol::Fifo), 2 => Just(Pol::Random), 1 => Just(Pol::Ttl)],
         strat_s(),
         prop_oneof![4 => Just(Hooks::Md5), 1 => Just(Hooks::Ngdp), 1 => Just(Hooks::None)],
-        0u8..6,
+        prop_oneof![6 => 0u8..6, 1 => 240u8..246],
         prop_oneof![1 => Just(1usize), 3 => Just(2usize), 4 => Just(3usize), 3 => Just(4usize), 1 => Just(5usize), 1 => Just(6usize)],
         any::<u64>(),
         proptest::collection::vec(op_s(), 1..=30),
